@@ -39,7 +39,7 @@ def setup(rep, tier):
     rep.minimum('R06.3', 5)
     rep.minimum('R06.4', 3)
     rep.minimum('R06.5', 5)
-    rep.minimum('R06.6', 1)
+    rep.minimum('R06.6', 2)
     rep.minimum('R06.7', 1)
 
 
@@ -421,7 +421,10 @@ def r06_67(rep, prog):
         if c is None:
             continue
         ls = {names.get(x[2]) for x in sx.walk(c) if sx.kind(x) == 'local'}
-        if 'last_size' in ls and any(sx.kind(x) == 'idx' for x in sx.walk(c)) and any(sx.kind(x) == 'param' and x[2] == 'size' for x in sx.walk(c)):
+        if 'last_size' in ls and 'bytes' in ls and any(sx.kind(x) == 'idx' for x in sx.walk(c)) and any(sx.kind(x) == 'param' and x[2] == 'size' for x in sx.walk(c)):
+            hits.append((b, c))
+        elif 'last_size' in ls and any(sx.kind(x) == 'idx' for x in sx.walk(c)) and any(sx.kind(x) == 'param' and x[2] == 'size' for x in sx.walk(c)) and \
+                not any(sx.kind(x) == 'bin' and x[1] == '*' for x in sx.walk(c)):
             hits.append((b, c))
     inst = '%s:self-delimited VBR: length field + last frame must fit in the remaining bytes' % prog.config
     if len(hits) != 1:
@@ -439,6 +442,32 @@ def r06_67(rep, prog):
         (rep.holds if ok else rep.violated)('R06.6', inst, where, 'test `%s` -> %s' % (sx.show(c), act) if ok else
                                             'test `%s` ignores the bytes taken by the length field itself (or does not reject): a packet truncated by 1-2 bytes is accepted and its last frame reported past the input' % sx.show(c),
                                             **({} if ok else {'key': 'selfdelim-last-frame'}))
+    # self-delimited CBR: the count equal frames must fit in the bytes that are left (len), not in some other quantity
+    cbr = []
+    for b in cf.blocks:
+        c = cf.cond(b)
+        if c is None:
+            continue
+        prods = [x for x in sx.walk(c) if sx.kind(x) == 'bin' and x[1] == '*' and any(sx.kind(y) == 'idx' and any(sx.kind(z) == 'param' and z[2] == 'size' for z in sx.walk(y)) for y in sx.walk(x))
+                 and any(sx.kind(y) == 'local' and names.get(y[2]) == 'count' for y in (sx.strip(x[2]), sx.strip(x[3])))]
+        if prods:
+            cbr.append((b, c))
+    inst = '%s:self-delimited CBR: count frames of the coded size must fit in the remaining bytes' % prog.config
+    if len(cbr) != 1:
+        rep.unresolved('R06.6', 'expected one `size[count-1]*count > len` test, found %d' % len(cbr), f.where())
+    else:
+        b, c = cbr[0]
+        cs = sx.strip(c)
+        act = None
+        for s_, pol in cf.edges(b):
+            if pol is True:
+                act = T._block_action(cf, s_, 0)
+        rhs = sx.strip(cs[3]) if sx.kind(cs) == 'bin' else None
+        ok = sx.kind(cs) == 'bin' and cs[1] == '>' and rhs is not None and sx.kind(rhs) == 'param' and rhs[2] == 'len' and act == ('return', -4)
+        where = '%s:%s' % (f.file, cf.blocks[b]['term'].get('l'))
+        (rep.holds if ok else rep.violated)('R06.6', inst, where, 'test `%s` -> %s' % (sx.show(c), act) if ok else
+                                            'test `%s` does not compare the total with the bytes that are left (`len`): truncated self-delimited CBR packets are accepted with frames past the end of the input' % sx.show(c),
+                                            **({} if ok else {'key': 'selfdelim-cbr-total'}))
     if prog.has_fn('opus_packet_has_lbrr'):
         g = prog.fn('opus_packet_has_lbrr')
         calls = [c for c in g.calls() if sx.callee_name(c) in ('opus_packet_get_samples_per_frame', 'opus_packet_get_nb_samples', 'opus_packet_get_nb_frames')]
